@@ -18,6 +18,8 @@ import Jawk.Lemmas.RoundTrip
 import Jawk.Lemmas.RunSpec
 import Jawk.Lemmas.ParseSer
 import Jawk.Props.Tables
+import Jawk.Lemmas.Noise2
+import Jawk.Lemmas.PrintSer
 namespace Jawk.C01
 open Jawk RT
 
@@ -120,5 +122,28 @@ theorem integer_literal_exact :
 
 /-! ### non-vacuity -/
 example (o : JsonOpts) : Printable o sample := sample_printable o
+
+/-! ### end to end -/
+
+/-- END TO END: for a stream of values, each in ANY conforming spelling, with any white space between them (and
+even garbage in the gaps, which the default policy skips), jawk with no options succeeds, writes exactly one
+one-line row per value, in input order — the printed text of that value followed by a line feed —, and nothing
+on standard error: no value dropped, duplicated, split or merged -/
+theorem end_to_end (orc : Oracles) (s : Noise2.StreamSpec2) (hs : s.OK) (wOut wErr : Writer)
+    (hw : Pipe.Unbounded wOut) :
+    (run orc {} [s.source] wOut wErr).result = .ok ()
+    ∧ (run orc {} [s.source] wOut wErr).stdout
+        = wOut.out ++ (s.items.map (·.v)).flatMap (fun v => utf8 (printJson {} v) ++ [10])
+    ∧ (run orc {} [s.source] wOut wErr).stderr = wErr.out :=
+  let h := Noise2.noise_default_same_output2 orc s hs wOut wErr hw
+  ⟨h.1, h.2.2.1, h.2.2.2.2.1⟩
+
+/-- … and each row denotes the same value: it is a conforming text (independent grammar `Ser`) of the value —
+same structure and member order, strings code point for code point, numbers as read (`norm`: a `neg 0` is `0`) -/
+theorem row_denotes_value (o : JsonOpts) (v : JV) (hv : Printable o v) :
+    Ser.Ser (norm v) (utf8 (printJson o v)) := PrintSer.printJson_ser_printable o v hv
+
+/-- non-vacuity of `end_to_end`: `{"a":1}x[1 , 2]@@ "s"#⏎1.5e3 $ true?` -/
+example : (⟨none, {}, Noise2.exItems2⟩ : Noise2.StreamSpec2).OK := Noise2.exSpec_ok
 
 end Jawk.C01
